@@ -59,8 +59,8 @@ var (
 	c04ExpsQuick = []string{"valid", "expired"}
 	c04EVsQuick  = []string{"true", "false", "absent"}
 	// claim typing; "custom" runs on the configurations with --oidc-email-claim=mail --oidc-groups-claim=realm.roles
-	c04TypsThorough = []string{"normal", "groups-string", "groups-objects", "email-absent", "groups-absent", "custom"}
-	c04TypsQuick    = []string{"normal", "groups-string", "email-absent", "custom"}
+	c04TypsThorough = []string{"normal", "groups-string", "groups-objects", "email-absent", "groups-absent", "groups-empty", "custom"}
+	c04TypsQuick    = []string{"normal", "groups-string", "email-absent", "groups-empty", "custom"}
 	c04AudCfgs      = []string{"default", "extra", "custom"}
 )
 
@@ -226,6 +226,8 @@ func c04Spec(k c04Cfg, path string, t c04Tok) *world.TokenSpec {
 		s.Claims["email"] = nil
 	case "groups-absent":
 		s.Claims["groups"] = nil
+	case "groups-empty":
+		s.Claims["groups"] = []string{} // the claim is there: the user is in no group (any more)
 	default:
 		panic("c04: typing " + t.Typ)
 	}
@@ -398,6 +400,10 @@ func c04Admissible(k c04Cfg, path string, t c04Tok) c04Adm {
 		a.Groups = [][]string{{"solo"}, {}}
 	case t.Typ == "groups-objects":
 		a.GroupsFree = true
+	case t.Typ == "groups-empty":
+		// no groups; a proxy that takes an empty list for "claim missing" and asks the profile endpoint is
+		// tolerated — groups from anywhere else (an earlier token of the session) are not
+		a.Groups = [][]string{{}, c04ProfGroups}
 	case t.Typ == "groups-absent" && bearer:
 		a.Groups = [][]string{{}, c04ProfGroups}
 	case t.Typ == "groups-absent":
@@ -1063,6 +1069,7 @@ func c04Run(c *Ctx) {
 	if c.Shards > 1 && c.Shard == c.Shards-1 || c.Shards <= 1 {
 		c04ExpirySequence(c)
 	}
+	c04ExtraIssuerDiscovery(c)
 	units, info := c04Units(c.Quick())
 	c.Info["alphabet"] = info
 	e := c04NewEnv(c)
@@ -1281,4 +1288,77 @@ func init() {
 			return c04Replay(c, raw)
 		},
 	})
+}
+
+// c04ExtraIssuerDiscovery: the verifier for an extra JWT issuer is set up at start-up from the issuer's
+// discovery document; if that first attempt fails (no document, or a document that spells the issuer
+// differently) the proxy falls back to the issuer's well-known key-set location. Whichever way the
+// verifier came about, "whose issuer matches" still holds for the tokens it accepts: tokens signed
+// by the extra issuer's key with the right audience but naming ANOTHER issuer are refused, the extra
+// issuer's own tokens are accepted.
+func c04ExtraIssuerDiscovery(c *Ctx) {
+	if c.Shards > 1 && c.Shard != 1 {
+		return
+	}
+	up := world.NewUpstream("c04x")
+	defer up.Close()
+	for _, disc := range []string{"", "404", "trailing-slash"} {
+		idp := world.NewIdP()
+		idp.Issuer2Discovery = disc
+		px, err := buildProxy(&ProxyCfg{Flags: append(baseFlags(up.URL()), "--email-domain=*", "--cookie-secure=false", "--skip-jwt-bearer-tokens=true",
+			"--extra-jwt-issuers="+world.Issuer2+"="+c04APIAud)})
+		if err != nil {
+			// refusing to start with an extra issuer it cannot set up is fail-closed
+			c.Inc("extra_issuer_discovery_" + disc + "_startup_refused")
+			continue
+		}
+		foreign := "https://other-tenant.example.com"
+		toks := []struct {
+			name   string
+			spec   *world.TokenSpec
+			accept int // 1 must be accepted, 0 must be refused, -1 either
+		}{
+			{"own issuer", &world.TokenSpec{DropNonce: true, Signer: "issuer2", Audience: c04APIAud}, 1},
+			{"foreign issuer, extra issuer's key, right audience", &world.TokenSpec{DropNonce: true, Signer: "issuer2", Audience: c04APIAud, Issuer: &foreign}, 0},
+			{"main issuer named, extra issuer's key", func() *world.TokenSpec {
+				i := world.Issuer
+				return &world.TokenSpec{DropNonce: true, Signer: "issuer2", Audience: c04APIAud, Issuer: &i}
+			}(), 0},
+			{"own issuer, wrong audience", &world.TokenSpec{DropNonce: true, Signer: "issuer2", Audience: "someone-else"}, 0},
+			{"own issuer named, main key", func() *world.TokenSpec {
+				i := world.Issuer2
+				return &world.TokenSpec{DropNonce: true, Audience: c04APIAud, Issuer: &i}
+			}(), 0},
+		}
+		if disc == "trailing-slash" {
+			toks[0].accept = -1 // which spelling is "the" issuer then is not pinned down
+		}
+		for _, t := range toks {
+			tok := idp.MintIDToken(idp.Users["alice"], t.spec)
+			up.Take()
+			resp := world.Serve(px.H, &world.Req{Method: "GET", Target: "/oauth2/userinfo", Host: "app.example.com", Headers: [][2]string{{"Authorization", "Bearer " + tok}}})
+			c.Inc("evaluations")
+			c.Inc("extra_issuer_discovery_cases")
+			accepted := resp.Status == 200
+			cs := map[string]any{"kind": "extra-issuer-discovery", "discovery": disc, "token": t.name, "status": resp.Status}
+			switch {
+			case resp.Panic != nil:
+				c.Violate(c04PanicKey(resp.PanicSite()), fmt.Sprintf("extra issuer (discovery %q), token %q: panic %v", disc, t.name, resp.Panic), 5, cs)
+			case t.accept == 0 && accepted:
+				c.Violate("C04/invalid-token-accepted:bearer-extra:issuer-after-failed-discovery", fmt.Sprintf("extra JWT issuer %s whose discovery answers %q at start-up: a bearer token [%s] is accepted (user-info 200 %s)", world.Issuer2, disc, t.name, c04Clip(resp.Body)), 5, cs)
+			case t.accept == 1 && !accepted:
+				c.Violate("C04/valid-token-rejected:bearer-extra:after-failed-discovery", fmt.Sprintf("extra JWT issuer %s whose discovery answers %q at start-up: its own token is refused (status %d)", world.Issuer2, disc, resp.Status), 5, cs)
+			default:
+				c.Inc("extra_issuer_discovery_as_expected")
+			}
+		}
+	}
+	world.NewIdP()
+}
+
+func c04Clip(s string) string {
+	if len(s) > 160 {
+		return s[:160] + "…"
+	}
+	return s
 }
